@@ -39,6 +39,19 @@ def core_dev(Xd: np.ndarray, T) -> float:
     return float(np.linalg.norm(G - c) / max(1.0, np.linalg.norm(c)))
 
 
+def ranks_kw(ranks) -> dict:
+    """how the rank request is spelled is a presentation (rotated with the array layout): "choose automatically" is
+    the omitted argument or an explicit vector of zeros (the Tensor Toolbox convention the default expands to), and a
+    vector is an array, a list or a tuple"""
+    import bind
+    lay = bind.get_layout()
+    form = {"default": lambda r: np.array(r, dtype=int), "swapped": lambda r: np.array(r, dtype=int),
+            "strided": list, "grown": tuple}[lay]
+    if not any(ranks):
+        return {} if lay == "default" else {"ranks": form([0] * len(ranks))}
+    return {"ranks": form([int(r) for r in ranks])}
+
+
 def exact_event(c: dict) -> dict:
     import bind
     ttb = bind.ttb
@@ -51,9 +64,7 @@ def exact_event(c: dict) -> dict:
     try:
         with quiet(), warnings.catch_warnings():
             warnings.simplefilter("ignore")
-            kw = {}
-            if any(a["ranks"]):
-                kw["ranks"] = np.array(a["ranks"], dtype=int)
+            kw = ranks_kw(a["ranks"])
             T = ttb.hosvd(ttb.tensor(X), c["tn"] / c["td"], verbosity=0, dimorder=np.array(c["order"], dtype=int),
                           sequential=bool(c["seq"]), **kw)
         kept, unit = [], True
@@ -91,7 +102,7 @@ def general_event(c: dict) -> dict:
     try:
         with quiet(), warnings.catch_warnings():
             warnings.simplefilter("ignore")
-            kw = {"ranks": np.array(c["ranks"], dtype=int)} if any(c["ranks"]) else {}
+            kw = ranks_kw(c["ranks"])
             T = ttb.hosvd(ttb.tensor(stored), c["tol"], verbosity=c["verbosity"], dimorder=np.array(c["order"], dtype=int),
                           sequential=bool(c["seq"]), **kw)
         rel = np.linalg.norm(Xd - T.full().data) / np.linalg.norm(Xd)
